@@ -3,6 +3,10 @@ package sym
 // intrinsics.go: the verif.* harness API and engine-side models of runtime-level functions.
 
 import (
+	"crypto/md5"
+	"crypto/sha1"
+	"crypto/sha256"
+	"crypto/sha512"
 	"fmt"
 	"go/types"
 	"os"
@@ -240,8 +244,16 @@ func (m *Machine) uf(name string, outLen int, args [][]*Term, injective bool) []
 	}
 	idx := len(rows)
 	res := make([]*Term, outLen)
-	for i := range res {
-		res[i] = m.tt.Var(fmt.Sprintf("uf:%s#%d[%d]", name, idx, i), BV(8))
+	if d := realDigest(name, outLen, args); d != nil {
+		// a standard hash of a fully concrete input: the real digest (still a row of the
+		// function, so that the collision-freedom constraints relate it to symbolic inputs)
+		for i := range res {
+			res[i] = m.tt.Const(BV(8), uint64(d[i]))
+		}
+	} else {
+		for i := range res {
+			res[i] = m.tt.Var(fmt.Sprintf("uf:%s#%d[%d]", name, idx, i), BV(8))
+		}
 	}
 	row := &ufRow{args: args, res: res}
 	for _, r := range rows {
@@ -452,7 +464,7 @@ func registerNatives(P *Program) {
 	// ---- sync ----
 	nop := func(fr *frame, a []value) value { return nil }
 	for _, n := range []string{"(*sync.Mutex).Lock", "(*sync.Mutex).Unlock", "(*sync.RWMutex).Lock", "(*sync.RWMutex).Unlock",
-		"(*sync.RWMutex).RLock", "(*sync.RWMutex).RUnlock"} {
+		"(*sync.RWMutex).RLock", "(*sync.RWMutex).RUnlock", "(*sync.Mutex).TryLock", "(*sync.RWMutex).TryLock", "(*sync.RWMutex).TryRLock"} {
 		name := n
 		reg(name, func(fr *frame, a []value) value { return fr.m.mutexOp(fr, name, a[0]) })
 	}
@@ -756,4 +768,37 @@ func (m *Machine) tryCallString(f *ssa.Function, recv value) (s string, ok bool)
 		return str, true
 	}
 	return "?str?", true
+}
+
+// realDigest computes H:<hash> for one fully concrete argument with the host's crypto.
+func realDigest(name string, outLen int, args [][]*Term) []byte {
+	if len(args) != 1 || !strings.HasPrefix(name, "H:") {
+		return nil
+	}
+	in := make([]byte, len(args[0]))
+	for i, t := range args[0] {
+		if !t.IsConst() {
+			return nil
+		}
+		in[i] = byte(t.Val)
+	}
+	var d []byte
+	switch name {
+	case "H:md5":
+		x := md5.Sum(in)
+		d = x[:]
+	case "H:sha1":
+		x := sha1.Sum(in)
+		d = x[:]
+	case "H:sha256":
+		x := sha256.Sum256(in)
+		d = x[:]
+	case "H:sha512":
+		x := sha512.Sum512(in)
+		d = x[:]
+	}
+	if len(d) != outLen {
+		return nil
+	}
+	return d
 }
